@@ -751,6 +751,53 @@ def load_corpus():
     return out
 
 
+def stage_oracle_duplicates(rep, rng, n):
+    """Direct check of the never-silently-overwrite clause on the real emitters: feeding a sequence of rules (single- and
+    multi-output) to Makefile.rule / NinjaFile.build raises ValueError exactly when some output path was named before
+    (or twice within one rule)."""
+    from bfg9000.backends.make.syntax import Makefile
+    from bfg9000.backends.ninja.syntax import NinjaFile
+    from bfg9000.path import Path
+    bad = 0
+    names = ['a.o', 'b.o', 'gen/t.h', 'gen/p.c', 'x y', 'out']
+    for _ in range(n):
+        seq = []
+        for _ in range(rng.randint(2, 5)):
+            k = rng.choice([1, 1, 2, 3])
+            seq.append([rng.choice(names) for _ in range(k)])
+        for backend in ('make', 'ninja'):
+            bf = Makefile('build.bfg') if backend == 'make' else NinjaFile('build.bfg')
+            if backend == 'ninja':
+                bf.rule('r', command=['true'])
+            seen = set()
+            expect_err_at = None
+            for i, outs in enumerate(seq):
+                for o in outs:
+                    if o in seen and expect_err_at is None:
+                        expect_err_at = i
+                    seen.add(o)
+                if expect_err_at is not None:
+                    break
+            got_err_at = None
+            for i, outs in enumerate(seq):
+                try:
+                    if backend == 'make':
+                        bf.rule([Path(o) for o in outs], recipe=[['true']])
+                    else:
+                        bf.build(output=[Path(o) for o in outs], rule='r')
+                except ValueError:
+                    got_err_at = i
+                    break
+            rep.case('dup:%s:%r' % (backend, seq), expect_err_at is not None)
+            if got_err_at != expect_err_at:
+                bad += 1
+                rep.fail('%s emitter: outputs %r - a duplicate output must be rejected at rule %r, the emitter %s' % (
+                    backend, seq, expect_err_at, 'raised at rule %r' % got_err_at if got_err_at is not None else 'accepted every rule'),
+                    {'kind': 'duplicates', 'backend': backend, 'rules': seq, 'expected_error_at': expect_err_at, 'error_at': got_err_at})
+    rep.stage('oracle:duplicate outputs', cases=n * 2, failures=bad)
+    return bad
+
+
 def run(rep):
     rng = random.Random(rep.seed)
     thorough = rep.tier == 'thorough'
@@ -772,6 +819,7 @@ def run(rep):
         found = stage_oracle_within(rep, rng, 4 if (thorough or dis) else 3, (n // 3) * (10 if dis else 1))
     finally:
         shutil.rmtree(scratch, ignore_errors=True)
+    found += stage_oracle_duplicates(rep, rng, 2000 if thorough else 300)
     found += stage_system(rep, rng, 40 if thorough else 6, 6 if thorough else 1)
     if dis and not found:
         st, call, iv, mv = dis[0]
